@@ -129,12 +129,86 @@ func TestC14(t *testing.T) {
 	for round := 0; round < rounds; round++ {
 		c14Round(t, rec, round)
 		c14Lend(t, rec, round)
+		c14BreakerSweeps(t, rec, round)
 	}
 	rec.Floor("refusals_checked", 25)
 	rec.Floor("positive_controls_succeeded", 20)
 	rec.Floor("esm_cells_checked", 8)
 	rec.Floor("price_cells_checked", 6)
 	rec.Floor("sweep_cells_checked", 1)
+	rec.Floor("breaker_auction_cells_live", 2)
+	rec.Floor("esm_cells_with_price_snapshot", 4)
+}
+
+// c14BreakerSweeps: on a young chain the first fees of an app and the admin's breaker message land in the same
+// block, so the begin-block sweep of the following blocks sees an (app, asset) whose debt / surplus auction is due
+// while the breaker is on. Nothing may be seized or auctioned for that app until the breaker is switched off;
+// after that the very same state must start the auction (positive control).
+func c14BreakerSweeps(t *testing.T, rec *ev.Rec, round int) {
+	for _, variant := range []int{ev.ShardNo()*2 + round*8, ev.ShardNo()*2 + round*8 + 1} {
+		u := newCDP(t, cdpOpts{variant: variant})
+		c := u.c
+		rnd := rng("C14-sweeps", variant)
+		r := newCdpRunner(u, rnd, ev.NewScratch(), cdpCfg{maxGap: time.Minute})
+		e := &c14Env{t: t, u: u, r: r, rec: rec, keys: storeKeys(c), admin: c.Accts[1]}
+		c.App.EsmKeeper.SetParams(c.Ctx(), esmtypes.Params{Admin: []string{e.admin.Addr.String()}})
+		for _, app := range u.cdpApps {
+			owner := c.Accts[2+rnd.Intn(len(c.Accts)-2)]
+			// fees for every debt asset of the app: small ones (debt auction due) and big ones (surplus auction due)
+			for _, p := range u.products {
+				if p.App != app || p.P.IsStableMintVault {
+					continue
+				}
+				debt := p.P.DebtFloor.MulRaw(int64(20 + rnd.Intn(30)))
+				pre := u.snap()
+				if m, ok := pre.NetFees[appAsset{app, p.Out.ID}]; !ok || m.IsZero() {
+					if (variant+int(app))%2 == 0 { // surplus-type mapping: fees well above the surplus threshold
+						debt = p.P.DebtFloor.MulRaw(int64(20_000 + rnd.Intn(5_000)))
+					}
+				}
+				in := r.collateralFor(p, debt, p.P.MinCr.MulInt64(1000).TruncateInt64()*3)
+				c.Deliver(owner, &vaulttypes.MsgCreateRequest{From: owner.Addr.String(), AppId: app, ExtendedPairVaultId: p.ID, AmountIn: in, AmountOut: debt})
+			}
+			e.setBreaker(app, true)
+			count := func(a, b *cdpSnap) (locked, auctions int) {
+				for id, l := range b.LockedV2 {
+					if _, was := a.LockedV2[id]; !was && l.AppId == app {
+						locked++
+					}
+				}
+				for id, x := range b.AucV2 {
+					if _, was := a.AucV2[id]; !was && x.AppId == app {
+						auctions++
+					}
+				}
+				return
+			}
+			for i := 0; i < 3; i++ {
+				before := u.snap()
+				r.block(6 * time.Second)
+				after := u.snap()
+				l, a := count(before, after)
+				rec.Eval(1)
+				rec.Count("breaker_on_blocks_observed", 1)
+				if l != 0 || a != 0 {
+					rec.Violate("C14/breaker/sweep-or-auction-started", fmt.Sprintf("with the breaker on the block created %d seizure records and opened %d auctions for the app", l, a),
+						map[string]interface{}{"app": app, "variant": variant, "net_fees": fmt.Sprint(before.NetFees), "oplog_tail": r.tail(6)})
+				}
+			}
+			e.setBreaker(app, false)
+			before := u.snap()
+			r.block(6 * time.Second)
+			r.block(6 * time.Second)
+			_, a := count(before, u.snap())
+			if a > 0 {
+				rec.Count("breaker_auction_cells_live", 1)
+			} else {
+				rec.Count("breaker_auction_cells_without_work", 1)
+			}
+			rec.Distinct("C14-breaker-sweep", app, (variant+int(app))%2, a > 0)
+		}
+		c.Close()
+	}
 }
 
 func c14Round(t *testing.T, rec *ev.Rec, round int) {
@@ -360,10 +434,25 @@ func c14Round(t *testing.T, rec *ev.Rec, round int) {
 				continue
 			}
 			for _, when := range []struct {
-				tag string
-				end time.Time
-			}{{"within-cool-off", now.Add(time.Hour)}, {"after-cool-off", now.Add(-time.Minute)}} {
-				ok2, changed, _, errStr := e.handlerOnFork(cl.msg, exec(when.end))
+				tag      string
+				end      time.Time
+				snapshot bool
+			}{{"within-cool-off", now.Add(time.Hour), false}, {"after-cool-off", now.Add(-time.Minute), false},
+				// the block after the execution: the module's begin blocker has taken its snapshot of prices
+				{"within-cool-off-after-price-snapshot", now.Add(time.Hour), true}, {"after-cool-off-after-price-snapshot", now.Add(-time.Minute), true}} {
+				mut := exec(when.end)
+				if when.snapshot {
+					end := when.end
+					mut = func(ctx sdk.Context) {
+						exec(end)(ctx)
+						st, _ := c.App.EsmKeeper.GetESMStatus(ctx, app)
+						_ = c.App.EsmKeeper.SnapshotOfPrices(ctx, st)
+						if st2, _ := c.App.EsmKeeper.GetESMStatus(ctx, app); st2.SnapshotStatus {
+							rec.Count("esm_cells_with_price_snapshot", 1)
+						}
+					}
+				}
+				ok2, changed, _, errStr := e.handlerOnFork(cl.msg, mut)
 				rec.Eval(1)
 				rec.Count("esm_cells_checked", 1)
 				w := map[string]interface{}{"case": cl.name, "when": when.tag, "error": errStr}
